@@ -199,6 +199,19 @@ func (maps *trackedMaps) processUnfiltered(ctx context.Context, ef *Filter, filt
 
 			switch {
 			// if the field is a string or []byte then we just need to sanitize it
+			case fPtr && (ftype == reflect.TypeOf("") || ftype == reflect.TypeOf([]uint8{})):
+				// the entry points to the value: filter it in place (setting a
+				// string or []byte into a map of pointers would panic, and in a map
+				// of interfaces it would change the entry's type)
+				if err := ef.filterValue(ctx, field, classificationTag, opt...); err != nil {
+					return fmt.Errorf("%s: unable to filter value behind a pointer: %w", op, err)
+				}
+
+			case fPtr && (ftype == reflect.TypeOf(wrapperspb.StringValue{}) || ftype == reflect.TypeOf(wrapperspb.BytesValue{})):
+				if err := ef.filterValue(ctx, field.FieldByName("Value"), classificationTag, opt...); err != nil {
+					return fmt.Errorf("%s: unable to filter wrappers value behind a pointer: %w", op, err)
+				}
+
 			case ftype == reflect.TypeOf(""):
 				s := field.String()
 				f := reflect.Indirect(reflect.ValueOf(&s))
